@@ -1,8 +1,13 @@
 /-
   C05 — operators compute the documented result for every combination of operand kinds.
-  The code-shaped evaluator is proved equal to the tables of DESIGN.md section 3
-  (Spec/Ops.lean), for every operator and all operand values; the error conditions and the
-  short-circuit behaviour are stated outright.
+  The code-shaped value-level functions (`binaryOp`, `Val.compare`, `Val.asNum`, `Val.truthy`)
+  are proved equal to the tables of DESIGN.md section 3 (Spec/Ops.lean), for every BINARY
+  operator and all operand values; the error conditions and the short-circuit behaviour are
+  stated outright.
+  Not covered by a theorem here: the unary operators (`!`, prefix `-` `+`, `++` `--`); `&&` / `||`
+  when the right operand IS evaluated (result `truthy` of it as a boolean); and that `evalBinary`
+  applies `binaryOp` to the values of its two operands (only `&&`, `||`, `is` are stated at the
+  level of `evalBinary`).
 -/
 import Jqawk.Spec.Ops
 
@@ -154,5 +159,22 @@ theorem is_spec (n : Nat) (l : Expr) (t : Token) (op : Token) (hop : op.tag = .i
 /-- non-vacuity: concrete operands meeting the hypotheses -/
 example : binaryOp .divide (.num F64.one) (.str b!"abc" none) = .err false "divide by zero" := by decide
 example : binaryOp .plus (.num F64.one) (.str b!"1" none) = .val (.str b!"11" none) := by decide +kernel
+/-- `binaryOp_compare`, `binaryOp_arith`: the operator classes are inhabited -/
+example : isCompareOp .lessEqual = true ∧ isArithOp .percent = true := by decide
+/-- `plus_add` (neither operand a string), `percent_error_iff` (0.9 truncates to 0) -/
+example : binaryOp .plus (.bool true) (.nil none) = .val (.num F64.one) := by decide +kernel
+example : binaryOp .percent (.num F64.one) (.str b!"0.9" none) = .err false "divide by zero" := by
+  decide +kernel
+/-- `compare_unset`, `compare_container_error`, `null_below` -/
+example : binaryOp .lessThan .unknown (.num F64.one) = .val (.bool true)
+    ∧ binaryOp .equalEqual .unknown .unknown = .val (.bool false) := by decide +kernel
+example : binaryOp .lessThan (.arr 0) (.num F64.one) = .err false "cannot compare" := by decide +kernel
+example : binaryOp .lessThan (.nil none) (.bool false) = .val (.bool true) := by decide +kernel
+/-- `and_shortcircuit`, `or_shortcircuit`, `is_spec`: a left operand that evaluates to a falsy /
+    truthy value -/
+example : (match evalExpr Program.empty 1 (.lit ⟨.false_, 0, []⟩) default,
+      evalExpr Program.empty 1 (.lit ⟨.true_, 0, []⟩) default with
+    | .ok c1 s1, .ok c2 s2 => !(s1.heap.get c1).truthy && (s2.heap.get c2).truthy
+    | _, _ => false) = true := by decide +kernel
 
 end Jqawk.C05
